@@ -53,7 +53,7 @@ def sendData : Bytes → List SockAns → SendRes
       ⟨r.outcome, rem.take sent ++ r.written, r.rest⟩
     else ⟨.ok, rem.take sent, o⟩
 
-/-- the packet loop of `_process_send_queue` for one block: `for packet in packets: if not send_data(packet): resolve(False); return` -/
+/-- the packet loop of `_process_send_queue` for one block: `for packet in packets: if not send_data(packet): resolve(False); break` -/
 def sendPackets : List Bytes → List SockAns → SendRes
   | [], o => ⟨.ok, [], o⟩
   | p :: ps, o =>
@@ -72,21 +72,49 @@ def packetSize : Nat := Gen.Misc.hsmsSendPacketSize
 /-- result of one run of `_process_send_queue` -/
 structure QRes where
   resolved : List Bool     -- results the blocks taken from the queue were resolved with, in order
-  written : Bytes
-  queue : List Bytes       -- blocks left in the queue when the run returned
+  parts : List Bytes       -- what was written for each of those blocks (and for the block the oracle ran out in)
+  queue : List Bytes       -- blocks left in the queue when the run ended (only when the oracle ran out)
   rest : List SockAns
   pending : Bool           -- the oracle ran out inside a `send_data` (that block is not resolved)
 deriving DecidableEq, Repr
 
-/-- `_process_send_queue`: `while not queue.empty(): block = queue.get(); …; on a failed packet: resolve(False); return` -/
+/-- the byte stream of the run -/
+def QRes.written (r : QRes) : Bytes := r.parts.flatten
+
+/-- `_process_send_queue` (the code that exists): `while not queue.empty(): block = queue.get(); for packet …: if not send_data(packet):
+resolve(False); break  else: resolve(True)` — after a failed block the loop goes on with the next one -/
 def processQueue (size : Nat) : List Bytes → List SockAns → QRes
   | [], o => ⟨[], [], [], o, false⟩
   | b :: q, o =>
     let r := sendBlock size b o
     match r.outcome with
-    | .ok => let r2 := processQueue size q r.rest; ⟨true :: r2.resolved, r.written ++ r2.written, r2.queue, r2.rest, r2.pending⟩
-    | .fail => ⟨[false], r.written, q, r.rest, false⟩
-    | .pending => ⟨[], r.written, q, r.rest, true⟩
+    | .ok => let r2 := processQueue size q r.rest; ⟨true :: r2.resolved, r.written :: r2.parts, r2.queue, r2.rest, r2.pending⟩
+    | .fail => let r2 := processQueue size q r.rest; ⟨false :: r2.resolved, r.written :: r2.parts, r2.queue, r2.rest, r2.pending⟩
+    | .pending => ⟨[], [r.written], q, r.rest, true⟩
+
+/-- the variant before the repair (`resolve(False); return`: the rest of the queue is left behind) — regression witness only -/
+def processQueueReturning (size : Nat) : List Bytes → List SockAns → QRes
+  | [], o => ⟨[], [], [], o, false⟩
+  | b :: q, o =>
+    let r := sendBlock size b o
+    match r.outcome with
+    | .ok => let r2 := processQueueReturning size q r.rest; ⟨true :: r2.resolved, r.written :: r2.parts, r2.queue, r2.rest, r2.pending⟩
+    | .fail => ⟨[false], [r.written], q, r.rest, false⟩
+    | .pending => ⟨[], [r.written], q, r.rest, true⟩
+
+/-- a connection that has failed stays failed: after the first error every later answer of the socket is an error -/
+def Sticky : List SockAns → Prop
+  | [] => True
+  | .error :: o => ∀ a ∈ o, a = .error
+  | _ :: o => Sticky o
+
+/-- every remaining answer is an error -/
+def AllErr (o : List SockAns) : Prop := ∀ a ∈ o, a = .error
+
+/-- number of blocks resolved `True` before the first one that was not -/
+def leadTrue : List Bool → Nat
+  | true :: l => leadTrue l + 1
+  | _ => 0
 
 /-- the pre-fix `send_data` (return value of `sock.send` ignored): kept only for the witness that the model can tell the difference -/
 def sendDataIgnoringShortWrite : Bytes → List SockAns → SendRes
